@@ -126,7 +126,9 @@ func (r *ResourceAcls) decode(pd packetDecoder, version int16) error {
 		return err
 	}
 
-	r.Acls = make([]*Acl, n)
+	if n >= 0 {
+		r.Acls = make([]*Acl, n)
+	}
 	for i := 0; i < n; i++ {
 		r.Acls[i] = new(Acl)
 		if err := r.Acls[i].decode(pd, version); err != nil {
